@@ -23,7 +23,8 @@ RULE = (
     "cells: strings (leading '=', number-, date- and boolean-looking texts, blanks, tabs, line breaks, non-ASCII, "
     "empty), whole numbers of both signs up to 2**53 (powers of 2 and 10 +-1), finite floats normalised to the 16 "
     "digits the producer stores (fractions, exponents, whole values >= 1e16, subnormals), numbers under currency / "
-    "percent / scientific / fraction formats, booleans, date-times 1900-03-01..9999-12-31 at whole seconds under 7 "
+    "percent / scientific / fraction formats, booleans, date-times 1900-03-01..9999-12-31 at whole seconds and at "
+    "1-999 ms past one (either neighbouring second is accepted, in the documented form) under 7 "
     "date formats, pure times under 7 time formats, formatted blanks, unwritten cells. Every sheet k is read with "
     "list(rowio.excel_rows(path, k)) and with cutplace.rows under a CID 'Format Excel, Sheet k' with one Text field "
     "per column; a sheet number beyond the last sheet must not deliver rows. One evaluation = one sheet read one "
@@ -103,9 +104,18 @@ def judge_cell(cell, text):
         expected = "1" if cell[1] else "0"
         return None if text == expected else ("bool", "should be %r" % expected)
     if kind == "d":
-        return None if text == cell[1] else ("date", "should be %r" % cell[1])
+        wanted = [cell[1]]
+        if len(cell) > 3 and cell[3]:
+            # a moment between two seconds: the documented form has no fraction, so either neighbour is right
+            later = enc_xlsx.parse_datetime(cell[1]) + datetime.timedelta(seconds=1)
+            wanted.append(later.strftime("%04d" % later.year + "-%m-%d %H:%M:%S"))
+        return None if text in wanted else ("date", "should be %s" % " or ".join(repr(w) for w in wanted))
     assert kind == "t"
-    return None if text == cell[1] else ("time", "should be %r" % cell[1])
+    wanted = [cell[1]]
+    if len(cell) > 3 and cell[3]:
+        seconds = sum(int(part) * scale for part, scale in zip(cell[1].split(":"), (3600, 60, 1))) + 1
+        wanted.append(_clock(seconds))
+    return None if text in wanted else ("time", "should be %s" % " or ".join(repr(w) for w in wanted))
 
 
 def judge_table(rows, actual, cid_width=None):
@@ -356,7 +366,8 @@ def check_writer(sub, case):
             sub.fail("C16|writer-roundtrip", case, "table %r written with XlsxRowWriter reads back as %r%s" % (
                 expected, actual, _xlrd_view(path)))
         sub.case(json.dumps(case, sort_keys=True), ragged or special, classes,
-                 sample={"kind": "writer", "rows": rows[:3]})
+                 sample={"kind": "writer", "rows": [[cell if len(cell) <= 40 else "%s... (%d characters)" % (
+                     cell[:12], len(cell)) for cell in row] for row in rows[:3]]})
     finally:
         shutil.rmtree(folder, ignore_errors=True)
 
@@ -506,6 +517,9 @@ def _clock(seconds):
     return "%02d:%02d:%02d" % (seconds // 3600, seconds // 60 % 60, seconds % 60)
 
 
+_MILLISECONDS = st.sampled_from([1, 250, 499, 500, 501, 789, 999])
+
+
 def _seconds():
     return st.one_of(st.sampled_from(_SPECIAL_SECONDS), st.integers(0, 86399))
 
@@ -541,6 +555,12 @@ def _cells(first_day):
         st.builds(lambda d, s, f: ["d", "%s %s" % (datetime.date.fromordinal(d).isoformat(), _clock(s)), f],
                   day, _seconds(), st.integers(0, len(enc_xlsx.DATE_FORMATS) - 1)),
         st.builds(lambda s, f: ["t", _clock(s), f], _seconds(), st.integers(0, len(enc_xlsx.TIME_FORMATS) - 1)),
+        # moments between two whole seconds (time stamps such as =NOW()), not on the last day / in the last second
+        st.builds(lambda d, s, f, ms: ["d", "%s %s" % (datetime.date.fromordinal(d).isoformat(), _clock(s)), f, ms],
+                  st.integers(first_day, _LAST_DAY - 1), _seconds(), st.integers(0, len(enc_xlsx.DATE_FORMATS) - 1),
+                  _MILLISECONDS),
+        st.builds(lambda s, f, ms: ["t", _clock(s), f, ms], st.integers(0, 86398),
+                  st.integers(0, len(enc_xlsx.TIME_FORMATS) - 1), _MILLISECONDS),
     )
     unvalued = st.one_of(st.just(None), st.just(["s", ""]),
                          st.integers(1, len(enc_xlsx.NUMBER_FORMATS) - 1).map(lambda f: ["k", f]))
@@ -612,6 +632,9 @@ def workbook_cases(draw):
     return case
 
 
+LONG_TEXT_LENGTHS = [254, 255, 256, 1023, 8191, 8192, 32765, 32766]  # plus the closing "."
+
+
 @st.composite
 def writer_cases(draw):
     cell = st.one_of(st.sampled_from(SPECIAL_STRINGS), st.text(alphabet=ALPHABET, max_size=8), st.just(""))
@@ -625,6 +648,11 @@ def writer_cases(draw):
         widest = max(range(len(rows)), key=lambda y: (len(rows[y]), y))
         if rows[widest][-1] == "":
             rows[widest][-1] = filler
+    if rows and any(rows) and draw(st.integers(0, 9)) == 0:
+        # one long text, up to the 32767 characters a cell can hold (255 and 8192 are limits of older formats / buffers)
+        y = draw(st.sampled_from([y for y, row in enumerate(rows) if row]))
+        x = draw(st.integers(0, len(rows[y]) - 1))
+        rows[y][x] = draw(st.sampled_from(["x", "\xe4", "<", " "])) * draw(st.sampled_from(LONG_TEXT_LENGTHS)) + "."
     case = {"kind": "writer", "rows": rows, "row_by_row": draw(st.booleans())}
     if len(rows) >= 2 and draw(st.integers(0, 2)) == 0:
         case["split"] = draw(st.integers(1, len(rows) - 1)) * draw(st.sampled_from([1, -1]))
@@ -636,6 +664,8 @@ CORPUS = [
     {"kind": "workbook", "options": {}, "sheets": [[[["s", "one"]]], [[["s", "two"]]]]},
     {"kind": "writer", "rows": [["a"]], "row_by_row": False},
     {"kind": "writer", "rows": [["a", "b"], ["c"]], "row_by_row": True},
+    {"kind": "writer", "rows": [["k", "x" * 32767], ["x" * 32766, "\xe4" * 32767]], "row_by_row": False},
+    {"kind": "writer", "rows": [["y" * 255, "y" * 256], ["z" * 8192]], "row_by_row": True},
     {"kind": "workbook", "options": {}, "beyond": True, "sheets": [
         [[["s", "one"], ["n", 1, 0]], [["s", "1.0"]]],
         [[["s", "two"]], [], [None, None, ["s", "wide"]]],
